@@ -72,7 +72,8 @@ func checkUpdate(c updCase) *vt.Fail {
 	defer tskit.RemoveAll(root)
 	r := tskit.NewRecorder()
 	tp := testscript.Params{UpdateScripts: true, Cmds: r.Cmds()}
-	rr := tskit.RunInProcess(root, []tskit.ScriptFile{{Name: "s", Data: orig}}, tskit.RunOpts{Params: tp, Retain: true, Deadline: 2 * time.Minute})
+	ext, useDir := tskit.LayoutFor(orig)
+	rr := tskit.RunInProcess(root, []tskit.ScriptFile{{Name: "s", Data: orig, Ext: ext}}, tskit.RunOpts{Params: tp, Retain: true, Deadline: 2 * time.Minute, UseDir: useDir})
 	if len(rr.Subs) != 1 {
 		return vt.Failf("runt-top-level", "RunT: %s %s", rr.Top.Verdict, rr.Top.Log)
 	}
